@@ -36,7 +36,9 @@ MK = """
 //@   loop 3 invariant forall k int :: k in $visited ==> dkgQ(m.payload)[k].Status == internal.MasterKeyConfirmed
 //@   loop 3 invariant unchanged("*internal.DumpedMachineStatePayload", "*internal.DKGConfirmation", "*internal.SignatureConfirmation", "map[int]*internal.DKGProposalParticipant", internal.DKGProposalParticipant.DkgCommit, internal.DKGProposalParticipant.DkgDeal, internal.DKGProposalParticipant.DkgResponse, internal.DKGProposalParticipant.DkgMasterKey, internal.DKGProposalParticipant.Error, internal.DKGProposalParticipant.Username, "[]byte")
 //@   ensures[C05.mkmismatch,C02.mismatch] !old(dkgExpired(m)) && !old(dkgAny(m.payload, internal.MasterKeyConfirmationError)) && old(exists a int, b int :: (a in dkgQ(m.payload)) && (b in dkgQ(m.payload)) && dkgQ(m.payload)[a].Status == internal.MasterKeyConfirmed && dkgQ(m.payload)[b].Status == internal.MasterKeyConfirmed && !sameKey(mkOf(m, a), mkOf(m, b))) ==> outEvent == eventDKGMasterKeyConfirmationCancelByErrorInternal && (forall k int :: k in dkgQ(m.payload) ==> dkgQ(m.payload)[k].Status == internal.MasterKeyConfirmationError)
+//@   ensures[C05.outs] outEvent == "" || outEvent == eventDKGMasterKeyConfirmationCancelByTimeoutInternal || outEvent == eventDKGMasterKeyConfirmationCancelByErrorInternal || outEvent == eventDKGMasterKeyConfirmedInternal
 //@   ensures[C05.phasekeep] outEvent == "" && old(dkgPhaseOk(m.payload, internal.MasterKeyAwaitConfirmation, internal.MasterKeyConfirmed)) ==> dkgPhaseOk(m.payload, internal.MasterKeyAwaitConfirmation, internal.MasterKeyConfirmed)
+//@   ensures[C05.mkwait.same] outEvent == "" ==> dkgViewsSame(m)
 //@   ensures[C05.mkwait] !old(dkgExpired(m)) && !old(dkgAny(m.payload, internal.MasterKeyConfirmationError)) && outEvent == "" ==> old(dkgCnt(m.payload, internal.MasterKeyConfirmed)) < old(len(dkgQ(m.payload))) && dkgViewsSame(m)
 //@   ensures[C05.advance] !old(dkgExpired(m)) && !old(dkgAny(m.payload, internal.MasterKeyConfirmationError)) && old(dkgCnt(m.payload, internal.MasterKeyConfirmed)) == old(len(dkgQ(m.payload))) && old(forall a int, b int :: (a in dkgQ(m.payload)) && (b in dkgQ(m.payload)) ==> sameKey(mkOf(m, a), mkOf(m, b))) ==> outEvent == eventDKGMasterKeyConfirmedInternal
 //@   ensures[C02.agree,C05.mkagree] outEvent == eventDKGMasterKeyConfirmedInternal ==> old(dkgCnt(m.payload, internal.MasterKeyConfirmed)) == old(len(dkgQ(m.payload))) && (forall a int, b int :: (a in dkgQ(m.payload)) && (b in dkgQ(m.payload)) ==> sameKey(mkOf(m, a), mkOf(m, b)))
